@@ -2,7 +2,7 @@
    Only the property theorems; proofs in Proofs/ConflictProofs.v (model) and by computation on
    the regenerated tables Gen/CmdTable.v, Gen/Consts.v (source tie). *)
 From Coq Require Import String ZArith.
-From StgV Require Import Model.CmdSpec Gen.CmdTable Gen.Consts Proofs.ConflictProofs.
+From StgV Require Import Model.CmdSpec Model.OptsSpec Gen.CmdTable Gen.Consts Proofs.ConflictProofs.
 
 (* a push that halts on a conflict has kept every earlier push of the same command, and the
    conflicting patch is the one whose push_patch halted *)
@@ -70,3 +70,18 @@ Print Assumptions C09_guards_in_source.
 Theorem C09_conflict_status_in_source : conflict_error = 3%Z /\ command_error = 2%Z.
 Proof. vm_compute. split; reflexivity. Qed.
 Print Assumptions C09_conflict_status_in_source.
+
+(* every modelled command sets up its transaction(s) in the current source with exactly the
+   options the model gives it (Model/OptsSpec.v transcribes the `opts` calls of Model/Cmd.v):
+   conflict policy, discard_changes, use_index_and_worktree, set_head, allow_bad_head, in
+   source order; a changed or added builder call breaks this *)
+Theorem C09_transaction_options_in_source :
+  forallb (fun p => cmd_matches (fst p) (snd p))
+    [(cmd_new, exp_new); (cmd_refresh, exp_refresh); (cmd_push, exp_push); (cmd_pop, exp_pop);
+     (cmd_goto, exp_goto); (cmd_float, exp_float); (cmd_sink, exp_sink); (cmd_delete, exp_delete);
+     (cmd_hide, exp_hide); (cmd_unhide, exp_unhide); (cmd_rename, exp_rename);
+     (cmd_commit, exp_commit); (cmd_uncommit, exp_uncommit); (cmd_clean, exp_clean);
+     (cmd_spill, exp_spill); (cmd_undo, exp_undo); (cmd_redo, exp_redo); (cmd_reset, exp_reset);
+     (cmd_repair, exp_repair); (cmd_edit, exp_edit); (cmd_rebase, exp_rebase)] = true.
+Proof. vm_compute. reflexivity. Qed.
+Print Assumptions C09_transaction_options_in_source.
